@@ -22,7 +22,12 @@ from simkit.core import HarnessError, Machine, RunResult, Trace, canon, diff_val
 from simkit.rng import SimRng, derive
 
 _COUNTER = [0]
-STEMS = ["model", "Model", "my model", "my-model", "m1", "m_1"]
+STEMS = [
+    "model", "Model", "my model", "my-model", "m1", "m_1",
+    # boundary lengths: long file names (same long name in two directories is ordinary)
+    "glycolysis_and_pentose_phosphate_pathway_model_of_saccharomyces_cerevisiae_v2_final",
+    "x" * 120,
+]
 DIRS = ["A", "B"]
 
 
@@ -125,6 +130,50 @@ def doc_spec(i: int) -> dict:
 
 
 N_DOCS = 7
+
+
+def _t_vin(c):  # noqa: ANN001, ANN202
+    return c
+
+
+def _t_vout(k, x):  # noqa: ANN001, ANN202
+    return k * x
+
+
+def _t_v(k, x):  # noqa: ANN001, ANN202
+    return k * x
+
+
+def _t_v1(k1, x):  # noqa: ANN001, ANN202
+    return k1 * x
+
+
+def _t_v2(y, k2):  # noqa: ANN001, ANN202
+    return k2 * y
+
+
+def twin_model(i: int):  # noqa: ANN201
+    """A HAND-WRITTEN model of document i whose Python functions carry the names of the
+    document's reactions (a user who wrote the model by hand and exported it), with their
+    own argument orders."""
+    from mxlpy import Model
+
+    spec = doc_spec(i)
+    fam, p, y0 = spec["family"], spec["params"], spec["y0"]
+    m = Model().add_parameters(dict(p)).add_variables(dict(y0))
+    fns = {"vin": _t_vin, "vout": _t_vout, "v": _t_v, "v1": _t_v1, "v2": _t_v2}
+    for n, f in fns.items():
+        f.__name__ = n
+    if fam == "F1":
+        m.add_reaction("vin", fns["vin"], args=["c"], stoichiometry={"x": 1})
+        m.add_reaction("vout", fns["vout"], args=["k", "x"], stoichiometry={"x": -1})
+    elif fam == "F4":
+        m.add_reaction("v", fns["v"], args=["k", "x"], stoichiometry={"x": 1})
+    else:
+        m.add_reaction("vin", fns["vin"], args=["c"], stoichiometry={"x": 1})
+        m.add_reaction("v1", fns["v1"], args=["k1", "x"], stoichiometry={"x": -1, "y": 1})
+        m.add_reaction("v2", fns["v2"], args=["y", "k2"], stoichiometry={"y": -1})
+    return m
 
 
 def queries(model, state_id: int) -> dict:  # noqa: ANN001
@@ -275,6 +324,21 @@ class Exec:
             self.trace.add("read", doc, op["path"], size)
             self.check_handle(len(self.handles) - 1, 1, "at_read")
             return
+        if k == "codegen":
+            # other library calls in the same session: code generation / symbolic conversion
+            # of a hand-written twin of one of the documents
+            from mxlpy import to_symbolic_model
+            from mxlpy.meta import generate_model_code_py, generate_mxlpy_code
+
+            tw = twin_model(op["doc"])
+            for fn in (generate_mxlpy_code, generate_model_code_py, to_symbolic_model):
+                try:
+                    fn(tw)
+                except Exception:  # noqa: BLE001
+                    self.counters["codegen_call_raised"] += 1
+            self.counters["other_library_calls_in_session"] += 1
+            self.trace.add("codegen", op["doc"])
+            return
         if k == "query":
             if not self.handles:
                 return
@@ -348,8 +412,10 @@ def gen_case(rng: SimRng, tier: str) -> dict:  # noqa: ARG001
                 ops.append({"op": "read", "path": pth, "tear_at": r.choice([0, 1, 40, 300, 700])})
             ops.append({"op": "read", "path": pth})
             nreads += 1
-        elif x < 0.75:
+        elif x < 0.72:
             ops.append({"op": "tick", "dt": r.choice([0.0, 0.3, 0.3, 1.0, 5.0])})
+        elif x < 0.78:
+            ops.append({"op": "codegen", "doc": r.choice(docs)})
         else:
             ops.append({"op": "query", "handle": r.randrange(max(1, nreads)), "state": r.randint(1, 4), "pickled": r.random() < 0.4})
     return {"bytecode": r.random() < 0.6, "ops": ops}
